@@ -1023,3 +1023,17 @@ Proof.
     apply (acquired_exclusion W s2 b i HI2 H22 Ab Kb); auto.
     intros ->. apply Nb. exact Ai.
 Qed.
+
+(* what the reader fast paths know: they are taken only after the tail test found the list empty, and then everything
+   pushed so far has been acquired already -- so the two theorems above order the fast-path item after every barrier
+   pushed before the tail test *)
+Theorem tail_test_sees_all_acquired W s t s' : 2 <= W <= 4094 -> reach W s -> gstep W s t = Some s' ->
+  ((pcs s t = S_tail /\ pcs s' t = S_rsv 0) \/ (exists q ovr, pcs s t = A_tail false q ovr /\ pcs s' t = A_acq q ovr)) ->
+  forall x, In x (pushed s) -> acquired s x.
+Proof.
+  intros HW R Hs Hc x Hx. destruct (inv2_reach W s HW R) as [_ [O _]]. apply (popped_acquired s x O).
+  assert (El : lst s = []).
+  { unfold gstep in Hs. destruct Hc as [[E E']|(q & ovr & E & E')]; rewrite E in Hs; apply Some_inj in Hs; subst s';
+      gcbn in E'; rewrite upd_same in E'; destruct (lst s); try reflexivity; cbn in E'; discriminate. }
+  pose proof (q_seq s O) as Q. rewrite El in Q. cbn in Q. rewrite app_nil_r in Q. rewrite in_rev, <- Q, <- in_rev. exact Hx.
+Qed.
